@@ -21,17 +21,7 @@ if [ "$TESTS" = "--tests" ]; then
 fi
 cd /; git -C /repo worktree remove --force "$WT"
 echo "demo on clean tree: rc=$RC_CLEAN ; demo with patch: rc=$RC_PATCHED ; tests with patch: $TESTRES"
-# run the checks against /repo with the patch applied
+# run every check against a scratch copy with the patch applied (no evidence is written)
 cd /verif
-git -C /repo apply "$DST/patch.diff" || { echo "cannot apply to /repo"; exit 3; }
-FIRED=""
-for p in $(/venv/bin/python -c "import json;print(' '.join(c['property_id'] for c in json.load(open('/verif/MANIFEST.json'))['checks']))"); do
-  OUT=$(./check $p --tier quick 2>&1); RC=$?
-  if [ $RC -eq 1 ]; then FIRED="$FIRED $p"; echo "--- $p fires:"; echo "$OUT" | grep -A1 "^VIOLATION" | grep -v "^--" | grep -v "^VIOLATION" | head -3 | cut -c1-260; fi
-  if [ $RC -eq 2 ]; then FIRED="$FIRED $p(exit2)"; echo "--- $p ANALYSIS-ERROR: $(echo "$OUT" | head -1 | cut -c1-200)"; fi
-done
-git -C /repo checkout -- . 
-git -C /repo status --short | grep -v egg-info
-echo "FIRED:$FIRED"
-echo "$FIRED" > "$DST/.fired"
-rm -rf /verif/replays
+./tools_seedscan.sh "$ID" | tee "$DST/.fired"
+rm -f "$DST"/.fired "$DST"/.demo_clean.log "$DST"/.demo_patched.log
